@@ -60,3 +60,9 @@ Definition run_c10 := run_sm proj_c10 mon_true.
 Definition run_c12 := run_sm proj_c12 mon_true.
 Definition run_c14 := run_sm proj_all mon_true.
 Definition run_c18 := run_sm proj_c18 mon_true.
+
+(* C11: requests, replies and everything that decides the reply or depends on the request's options *)
+Definition proj_c11 (a : action) : bool :=
+  match a with ARequest _ _ | AReply _ _ | APolicy _ _ | AEvent (EvState _) | AEvent (EvResult _) | AInstaller IReboot _ => true | _ => false end.
+Definition mon_c11 (c : smcase) (t : list action) : bool := match c with KSm ep _ _ _ _ _ _ _ => match ep with EStart => accepts step11 init11 t | EOneshot => true end end.
+Definition run_c11 := run_sm proj_c11 mon_c11.
